@@ -957,6 +957,15 @@ add("C10", "pseudo-column exclusion applied regardless of the dialect setting", 
 add("C01", "generator stops consulting a dialect-overridden setting", G,
     "        if not self.LOCKING_READS_SUPPORTED:\n            self.unsupported(\"Locking reads using 'FOR UPDATE/SHARE' are not supported\")\n            return \"\"\n", "", "C01.d")
 
+add("C19", "SingleStore's generator module is imported before the MySQL dialect exists", "sqlglot/dialects/singlestore.py",
+    "from sqlglot.dialects.mysql import MySQL\nfrom sqlglot.generators.singlestore import SingleStoreGenerator\n",
+    "from sqlglot.generators.singlestore import SingleStoreGenerator\nfrom sqlglot.dialects.mysql import MySQL\n", "C19.i")
+add("C19", "Athena's Trino delegate filters the live TRANSFORMS of TrinoGenerator at import", "sqlglot/generators/athena.py",
+    "        for k, v in {\n            **TrinoGenerator.TRANSFORMS,\n            exp.PartitionedByProperty: _partitioned_by_property_sql,\n            exp.LocationProperty: _location_property_sql,\n        }.items()\n",
+    "        for k, v in TrinoGenerator.TRANSFORMS.items()\n", "C19.i")
+add("C19", "benign: StarRocks filters a snapshot of the MySQL transforms", "sqlglot/generators/starrocks.py",
+    "for k, v in MySQLGenerator.TRANSFORMS.items()", "for k, v in dict(MySQLGenerator.TRANSFORMS).items()", "silent")
+
 add("C01", "hive prints ARRAY_UNIQUE_AGG under a name its parser reads as another, differently printed class", "sqlglot/generators/hive.py",
     '        exp.ArrayUniqueAgg: rename_func("COLLECT_SET"),', '        exp.ArrayUniqueAgg: rename_func("ANY_VALUE"),', "C01.e")
 add("C01", "hive parser reads COLLECT_SET as AnyValue (printed FIRST) while ArrayUniqueAgg is still printed COLLECT_SET", "sqlglot/parsers/hive.py",
